@@ -228,3 +228,13 @@ Proof.
   apply at_byte with (x := ms_data sec); [|exact Hn].
   exists (fpre ++ pre), (post ++ fpost). split; [now rewrite <- !app_assoc|reflexivity].
 Qed.
+
+Lemma string_table_layer s txt i s' :
+  get_string s txt = Ok (i, s') -> names_inv s ->
+  names_inv s' /\ strtab_at (w_strtab s') i txt /\
+  (forall ext, nul_free txt = true -> strtab_get (w_strtab s' ++ ext) i = Some (str_bytes txt)).
+Proof.
+  intros H I. destruct (get_string_spec s txt i s' H I) as (A & B & _).
+  split; [exact A|]. split; [exact B|]. intros ext N. apply strtab_get_at; [|exact N].
+  now apply strtab_at_app.
+Qed.
